@@ -125,4 +125,33 @@ theorem sext32_16 (x : Nat) (h : x < 65536) :
     BitVec.setWidth 64 ((BitVec.setWidth 32 (BitVec.setWidth 64 (BitVec.setWidth 32 (BitVec.ofNat 64 x) <<< 16))).sshiftRight 16) =
       BitVec.ofNat 64 (sx 16 32 x) := sext32 16 x (by omega) (by omega) h
 
+/-! ### stored bytes: truncations that do not matter, swaps as `decBE ∘ encLE` -/
+
+theorem encLE_mod_dvd (n m v : Nat) (h : 256 ^ n ∣ m) : encLE n (v % m) = encLE n v := by
+  apply encLE_congr; exact Nat.mod_mod_of_dvd v h
+theorem encLE1_mod (v : Nat) : encLE 1 (v % 256) = encLE 1 v := encLE_mod' 1 v
+theorem encLE2_mod (v : Nat) : encLE 2 (v % 65536) = encLE 2 v := encLE_mod' 2 v
+theorem encLE4_mod (v : Nat) : encLE 4 (v % 4294967296) = encLE 4 v := encLE_mod' 4 v
+theorem encLE8_mod (v : Nat) : encLE 8 (v % 18446744073709551616) = encLE 8 v := encLE_mod' 8 v
+theorem encLE1_m64 (v : Nat) : encLE 1 (v % 18446744073709551616) = encLE 1 v := encLE_mod_dvd 1 _ v (by decide)
+theorem encLE2_m64 (v : Nat) : encLE 2 (v % 18446744073709551616) = encLE 2 v := encLE_mod_dvd 2 _ v (by decide)
+theorem encLE4_m64 (v : Nat) : encLE 4 (v % 18446744073709551616) = encLE 4 v := encLE_mod_dvd 4 _ v (by decide)
+
+theorem decBE_encLE1 (v : Nat) : decBE (encLE 1 v) = v % 256 := by simp [decBE, encLE, decLE]
+theorem decBE_encLE2 (x : Nat) : decBE (encLE 2 x) = x % 256 * 256 + x / 256 % 256 := (swap2_eq x).symm
+theorem decBE_encLE4 (x : Nat) : decBE (encLE 4 x) =
+    ((x % 256 * 256 + x / 256 % 256) * 256 + x / 65536 % 256) * 256 + x / 16777216 % 256 := (swap4_eq x).symm
+theorem decBE_encLE8 (x : Nat) : decBE (encLE 8 x) = byteSwap 8 (x % 18446744073709551616) := (swap8_eq x).symm
+
+theorem decBE_lt' (bs : List UInt8) : decBE bs < 256 ^ bs.length := by
+  have := decLE_lt bs.reverse
+  simpa [decBE] using this
+theorem byteSwap_lt (n v : Nat) : byteSwap n v < 256 ^ n := by
+  rw [byteSwap_eq]; simpa using decBE_lt' (encLE n v)
+theorem byteSwap2m (x : Nat) : byteSwap 2 (x % 65536) = decBE (encLE 2 x) := by rw [byteSwap_eq, encLE2_mod]
+theorem byteSwap4m (x : Nat) : byteSwap 4 (x % 4294967296) = decBE (encLE 4 x) := by rw [byteSwap_eq, encLE4_mod]
+/-- two values with the same low `n` bytes are stored as the same bytes by a big-endian store too -/
+theorem be_congr (n x y : Nat) (h : x % 256 ^ n = y % 256 ^ n) :
+    encLE n (decBE (encLE n x)) = encLE n (decBE (encLE n y)) := by rw [encLE_congr n x y h]
+
 end Ebv.XdpRun
